@@ -44,6 +44,13 @@ impl IndexMapSV {
     { unimplemented!() }
 
     #[verifier::external_body]
+    pub fn get(&self, k: &String) -> (r: Option<&PathAwareValue>)
+        ensures
+            r is Some == has_key(self@, k@),
+            r is Some ==> exists|i: int| 0 <= i < self@.len() && self@[i].0 == k@ && self@[i].1 == *r->Some_0,
+    { unimplemented!() }
+
+    #[verifier::external_body]
     pub fn insert(&mut self, k: String, v: PathAwareValue) -> (r: Option<PathAwareValue>)
         ensures
             !has_key(old(self)@, k@) ==> final(self)@ == old(self)@.push((k@, v)) && r is None,
@@ -190,6 +197,20 @@ impl Path {
     pub fn extend_str__canary(&self, part: &str) -> (res: Path)
 { let r = self.extend_str(part); assert(false); r }
 }
+// ---- fn guard/src/rules/path_value.rs::is_null
+impl PathAwareValue {
+    pub fn is_null(&self) -> (res: bool)
+    ensures
+        res == (self is Null),
+{
+        matches!(self, PathAwareValue::Null(_))
+    }
+}
+// ---- canary canary:pre:is_null
+impl PathAwareValue {
+    pub fn is_null__canary(&self) -> (res: bool)
+{ assert(false); vstd::pervasive::unreached() }
+}
 // ---- fn guard/src/rules/path_value.rs::merge
 impl PathAwareValue {
     pub fn merge(self, other: PathAwareValue) -> (res: Result<PathAwareValue>)
@@ -234,7 +255,8 @@ for (key, value) in it: other_map.values.into_entries()
                         forall|i: int| 0 <= i < it.index@ ==>
                             ((#[trigger] map.keys@[k0.len() + i]) is String && str_of(map.keys@[k0.len() + i])@ == b0[i].0),
 {
-                    if map.values.contains_key(&key) {
+                    
+                    if map.values.get(&key).map_or(false, |v| !v.is_null()) {
                                                 proof {
                             let i = it.index@ as int;
                             assert(b0[i] == (it.seq()[i].0@, it.seq()[i].1));
